@@ -9,9 +9,11 @@ use serde_json::Value;
 mod c01;
 mod c02;
 mod c03;
+mod c04;
 mod c05;
 mod c06;
 mod c07;
+mod c16;
 mod c18;
 pub mod expand;
 
@@ -94,14 +96,16 @@ impl Tracer {
 pub fn drive(prop: &str, tier: &str, seed: u64, outdir: &str) -> u64 {
     let thorough = tier == "thorough";
     let mut rng = StdRng::seed_from_u64(seed ^ 0x5eed_0000);
-    let mut tr = Tracer::new(outdir, &format!("drv-{}", prop), 20000);
+    let mut tr = Tracer::new(outdir, &format!("drv-{}", prop), 8000);
     match prop {
         "C01" => c01::drive(&mut tr, &mut rng, thorough),
         "C02" => c02::drive(&mut tr, &mut rng, thorough),
         "C03" => c03::drive(&mut tr, &mut rng, thorough),
+        "C04" => c04::drive(&mut tr, &mut rng, thorough),
         "C05" => c05::drive(&mut tr, &mut rng, thorough),
         "C06" => c06::drive(&mut tr, &mut rng, thorough),
         "C07" => c07::drive(&mut tr, &mut rng, thorough),
+        "C16" => c16::drive(&mut tr, &mut rng, thorough),
         "C18" => c18::drive(&mut tr, &mut rng, thorough),
         _ => panic!("no driver for {}", prop),
     }
